@@ -245,7 +245,7 @@ def run(ctx):
     f = ctx.fn(O + "from_attributes::FromAttributesOptions::new")
     if f:
         errs = errors_of(ctx, f)
-        ok = [e for e in errs if e[1] == "custom" and all(ctx._sat(d, r"is_newtype\(.*\)=False") and ctx._sat(d, r"^len\(.*attr_names.*\)=0$") for d in ctx.pc_strs(f, e[0]))]
+        ok = [e for e in errs if e[1] == "custom" and all((ctx._sat(d, r"is_newtype\(.*\)=False") or ctx._sat(d, ("ne", r"^discr\(.*\.data\)$", "Struct"))) and ctx._sat(d, r"^len\(.*attr_names.*\)=0$") for d in ctx.pc_strs(f, e[0]))]
         ctx.ob("C10.G.from-attributes-needs-names", f.key, "FromAttributes without attributes(..)", len(ok) == 1, "guarded error")
     f = ctx.fn(O + "shape::DataShape::set_word")
     if f:
